@@ -4,11 +4,15 @@ from checks import vaacommon, proccommon, c19
 
 def run(ctx):
     ctx.prove(families=("vaa", "processor", "explorer"))
-    vaacommon.run_vaa(ctx, "c06", ("ver",))
+    vaacommon.run_vaa(ctx, "c06", ("ver", "wver"))
     ctx.cov["rule"] = ("guardian lists of length 0..255 (quick: 11 sizes; thorough: every size), with and without repeated addresses; a valid "
                        "ascending signer subset and 20+ single-step corruptions (swap, duplicate, re-index, index 255 / = len, outsider, other member, "
                        "bit flip, bad recovery id, zero signature, body flip, short/empty/longer list, too many signatures, repeated key) through the real "
-                       "VerifySignatures; recover oracle = independent crypto.Ecrecover per (digest, signature)")
+                       "VerifySignatures; recover oracle = independent crypto.Ecrecover per (digest, signature); repeated-address lists: the address of "
+                       "position a also at b for every pair a<b (lists up to 20; boundary/random pairs above) and triples, signatures claiming the first / "
+                       "second / both positions, alone and among other signers; wver: the same VAAs on the wire path (hand-encoded bytes -> Unmarshal -> "
+                       "VerifySignatures), Spec = Valid on the signature records read off the bytes in wire order (reversed / rotated / swapped lists); "
+                       "ver-concurrent: verification results obtained while other goroutines hash, encode and verify (child process)")
     ctx.cov["trusted_base"] += ["secp256k1 recovery and Keccak-256 are oracles (go-ethereum), supplied to the model as a finite table per case"]
     # the call site in the processor (anchor node/pkg/processor/observation.go): an inbound VAA is stored iff verification
     # against the node's CURRENT guardian list succeeds - clause stored-vaa-not-quorum-verifiable, and the model comparison on every
